@@ -59,12 +59,27 @@ def run(ctx, col: Collector):
     eff = get_eff(ctx)
 
     mutators: List[FuncInfo] = []
+    _fcache: Dict[str, FuncInfo] = {}
+
+    def F(mod: str, qual: str) -> FuncInfo:
+        """The method as the rules read it: private helpers it calls are expanded in place (extract-method refactorings of the mutators), the two owner-link
+        primitives and the public operations stay calls."""
+        key = f'{mod}:{qual}'
+        if key not in _fcache:
+            from ..inline import inlined_info
+            raw = idx.func(mod, qual)
+            keep = {'_set_database', '_unset_database'}
+            for cname, cmod in (('Database', DB), ('Table', 'pydbml._classes.table')):
+                keep |= {n for n in idx.cls(cmod, cname).methods if not n.startswith('_')}
+            inl = inlined_info(idx, raw, 3, keep=keep)
+            _fcache[key] = inl if getattr(inl.node, '_inlined_any', False) else raw
+        return _fcache[key]
 
     def collect():
         for m in DB_MUTATORS:
-            mutators.append(idx.func(DB, f'Database.{m}'))
+            mutators.append(F(DB, f'Database.{m}'))
         for m in TABLE_MUTATORS:
-            mutators.append(idx.func('pydbml._classes.table', f'Table.{m}'))
+            mutators.append(F('pydbml._classes.table', f'Table.{m}'))
         # any other public method of Database/Table that mutates self is a mutator too
         for cname, mod in (('Database', DB), ('Table', 'pydbml._classes.table')):
             ci = idx.cls(mod, cname)
@@ -145,7 +160,7 @@ def run(ctx, col: Collector):
 
     # ------------------------------------------------------------------ (b) paired updates
     def paired():
-        add = idx.func(DB, 'Database.add_table')
+        add = F(DB, 'Database.add_table')
         o = first_param(add)
         n_app = 0
         for path in paths_of(add, 1):
@@ -174,7 +189,7 @@ def run(ctx, col: Collector):
                           'a table with an alias is also indexed under the alias',
                           f'a path of add_table with an alias set does not store table_dict[{o}.alias] = {o}', node=add.node, file=add.file)
         col.floor('C09-paired', 'appending paths of add_table', n_app, 2)
-        dele = idx.func(DB, 'Database.delete_table')
+        dele = F(DB, 'Database.delete_table')
         o = first_param(dele)
         n_pop = 0
         for path in paths_of(dele, 1):
@@ -204,6 +219,9 @@ def run(ctx, col: Collector):
                         and isinstance(nd.value, ast.Call) and isinstance(nd.value.func, ast.Attribute) and nd.value.func.attr == 'pop' \
                         and access_path(nd.value.func.value) == 'self.tables':
                     removed_vars.add(nd.targets[0].id)
+                if ev.kind == 'stmt' and isinstance(nd, ast.Assign) and len(nd.targets) == 1 and isinstance(nd.targets[0], ast.Name) \
+                        and isinstance(nd.value, ast.Name) and nd.value.id in removed_vars:
+                    removed_vars.add(nd.targets[0].id)      # another name for the removed element
             def identity_keys(it, depth=0):
                 """True if the iterable `it` yields exactly the keys of self.table_dict whose value IS the removed table."""
                 if depth > 3:
@@ -315,7 +333,7 @@ def run(ctx, col: Collector):
             col.check(ok, 'C09-backptr', f'{fi.qualname}:stores', f'{fi.qualname} stores {p}.database = {want}',
                       f'{fi.qualname} does not store {p}.database = {want}', node=fi.node, file=fi.file)
         for m in ('add_table', 'add_reference', 'add_enum', 'add_sticky_note', 'add_table_group', 'add_project'):
-            fi = idx.func(DB, f'Database.{m}')
+            fi = F(DB, f'Database.{m}')
             o = first_param(fi)
             bad = None
             n = 0
@@ -333,40 +351,76 @@ def run(ctx, col: Collector):
                       f'every successful path of {m} points the added object back to the database',
                       f'a successful path of Database.{m} does not set {o}.database = self', node=fi.node, file=fi.file)
         # deletes: the pointer of the element actually removed is cleared
-        for m, container in (('delete_table', 'self.tables'), ('delete_reference', 'self.refs'), ('delete_enum', 'self.enums'),
-                             ('delete_table_group', 'self.table_groups'), ('delete_project', 'self.project')):
-            fi = idx.func(DB, f'Database.{m}')
-            bad = None
-            n = 0
+        from ..inline import inlined_info as _ii
+
+        def clears(fi: FuncInfo, container: str) -> Tuple[str, str]:
+            """('ok' | 'bad' | 'unk', why) for: every successful path clears the owner pointer of the element removed from the container."""
+            params = {a.arg for a in fi.node.args.args[1:]}
+            verdict, why, n = 'ok', '', 0
             for path in paths_of(fi, 1):
                 if path[-1].kind != 'return':
                     continue
                 n += 1
                 removed_vars: Set[str] = set()
                 ok = False
+                cleared_arg = None
+                opaque = None
                 for ev in path:
                     nd = ev.node
                     if ev.kind == 'stmt' and isinstance(nd, ast.Assign) and len(nd.targets) == 1 and isinstance(nd.targets[0], ast.Name):
                         v = nd.value
                         if isinstance(v, ast.Call) and isinstance(v.func, ast.Attribute) and v.func.attr == 'pop' and access_path(v.func.value) == container:
                             removed_vars.add(nd.targets[0].id)
-                        if access_path(v) == container:
+                        if access_path(v) == container or (isinstance(v, ast.Name) and v.id in removed_vars):
                             removed_vars.add(nd.targets[0].id)
+                    if ev.kind == 'stmt' and isinstance(nd, ast.Assign) and len(nd.targets) == 1 and isinstance(nd.targets[0], ast.Attribute) \
+                            and nd.targets[0].attr == 'database' and isinstance(nd.value, ast.Constant) and nd.value.value is None and isinstance(nd.targets[0].value, ast.Name):
+                        # the inlined body of _unset_database
+                        if nd.targets[0].value.id in removed_vars:
+                            ok = True
+                        elif nd.targets[0].value.id in params:
+                            cleared_arg = nd.targets[0].value.id
                     for c in event_calls(ev):
                         if isinstance(c.func, ast.Attribute) and c.func.attr == '_unset_database' and c.args:
                             a = c.args[0]
                             if isinstance(a, ast.Name) and a.id in removed_vars:
                                 ok = True
-                            if isinstance(a, ast.Call) and isinstance(a.func, ast.Attribute) and a.func.attr == 'pop' and access_path(a.func.value) == container:
+                            elif isinstance(a, ast.Call) and isinstance(a.func, ast.Attribute) and a.func.attr == 'pop' and access_path(a.func.value) == container:
                                 ok = True
-                if not ok:
-                    bad = path[-1]
-            col.check(bad is None and n >= 1, 'C09-backptr', f'Database.{m}:clears-owner',
-                      f'{m} clears the owner pointer of the element it removed from {container}',
-                      f'a successful path of Database.{m} does not call _unset_database on the element removed from {container} '
-                      f'(clearing the argument is not enough: it may only be equal to the stored object)', node=fi.node, file=fi.file)
+                            elif isinstance(a, ast.Name) and a.id in params:
+                                cleared_arg = a.id
+                        elif isinstance(c.func, ast.Attribute) and norm(c.func.value) == 'self' and idx.lookup_method(fi.cls, c.func.attr) is not None:
+                            opaque = opaque or norm(c)[:50]
+                if ok:
+                    continue
+                if cleared_arg is not None:
+                    return 'bad', (f'a successful path of {fi.qualname} clears the owner pointer of its argument `{cleared_arg}` rather than of the element removed from {container} '
+                                   f'(the argument may only be equal to the stored object)')
+                if opaque is not None:
+                    verdict, why = 'unk', f'a successful path of {fi.qualname} hands the removal to `{opaque}`, which could not be followed'
+                elif verdict != 'unk':
+                    verdict, why = 'bad', (f'a successful path of {fi.qualname} does not call _unset_database on the element removed from {container} '
+                                           f'(clearing the argument is not enough: it may only be equal to the stored object)')
+            if n == 0:
+                return 'unk', f'{fi.qualname} has no successful path'
+            return verdict, why
+        for m, container in (('delete_table', 'self.tables'), ('delete_reference', 'self.refs'), ('delete_enum', 'self.enums'),
+                             ('delete_table_group', 'self.table_groups'), ('delete_project', 'self.project')):
+            fi = F(DB, f'Database.{m}')
+            v, why = clears(fi, container)
+            if v != 'ok':
+                v2, why2 = clears(_ii(idx, fi, 3, keep={'_unset_database'}), container)
+                if v2 == 'ok' or v == 'unk':
+                    v, why = v2, why2
+            cons = f'Database.{m}:clears-owner'
+            if v == 'ok':
+                col.ok('C09-backptr', cons, f'{m} clears the owner pointer of the element it removed from {container}', node=fi.node, file=fi.file)
+            elif v == 'bad':
+                col.bad('C09-backptr', cons, why, node=fi.node, file=fi.file)
+            else:
+                col.unk('C09-backptr', cons, why, node=fi.node, file=fi.file)
         # add_project detaches the old project
-        ap = idx.func(DB, 'Database.add_project')
+        ap = F(DB, 'Database.add_project')
         bad = None
         n = 0
         for path in paths_of(ap, 1):
@@ -381,7 +435,7 @@ def run(ctx, col: Collector):
                   node=ap.node, file=ap.file)
         # Table level
         for m, container, attr in (('add_column', 'self.columns', 'table'), ('add_index', 'self.indexes', 'table')):
-            fi = idx.func('pydbml._classes.table', f'Table.{m}')
+            fi = F('pydbml._classes.table', f'Table.{m}')
             o = first_param(fi)
             bad = None
             n = 0
@@ -400,7 +454,7 @@ def run(ctx, col: Collector):
                       f'a successful path of Table.{m} does not both append {o} to {container} and set {o}.{attr} = self',
                       node=fi.node, file=fi.file)
         for m, container in (('delete_column', 'self.columns'), ('delete_index', 'self.indexes')):
-            fi = idx.func('pydbml._classes.table', f'Table.{m}')
+            fi = F('pydbml._classes.table', f'Table.{m}')
             o = first_param(fi)
             bad = None
             n = 0
@@ -450,7 +504,7 @@ def run(ctx, col: Collector):
 
     # ------------------------------------------------------------------ (d) derived index
     def derived_index():
-        add = idx.func(DB, 'Database.add_table')
+        add = F(DB, 'Database.add_table')
         o = first_param(add)
         keys = []
         for n in walk_no_nested(add.node):
@@ -495,7 +549,7 @@ def run(ctx, col: Collector):
     def other_guards():
         DVE = [EXC + 'DatabaseValidationError']
         # reference must touch this database: for/else raise
-        fi = idx.func(DB, 'Database.add_reference')
+        fi = F(DB, 'Database.add_reference')
         o = first_param(fi)
         mp = mutation_pred(ctx, fi)
         loops = [n for n in walk_no_nested(fi.node) if isinstance(n, ast.For) and ('col1' in norm(n.iter) and 'col2' in norm(n.iter))]
@@ -545,7 +599,7 @@ def run(ctx, col: Collector):
                       node=bad2.node if bad2 else fi.node, file=fi.file)
         # unsupported type in add/delete
         for m in ('add', 'delete'):
-            fi = idx.func(DB, f'Database.{m}')
+            fi = F(DB, f'Database.{m}')
             o = first_param(fi)
             bad = None
             n = 0
@@ -570,7 +624,7 @@ def run(ctx, col: Collector):
         # deleting something absent
         for m, container in (('delete_table', 'self.tables'), ('delete_reference', 'self.refs'), ('delete_enum', 'self.enums'),
                              ('delete_table_group', 'self.table_groups')):
-            fi = idx.func(DB, f'Database.{m}')
+            fi = F(DB, f'Database.{m}')
             mp = mutation_pred(ctx, fi)
             bad = None
             n = 0
@@ -594,11 +648,11 @@ def run(ctx, col: Collector):
             col.check(bad is None and n >= 1, 'C09-guard', f'Database.{m}:absent',
                       f'{m} of something absent raises DatabaseValidationError before any mutation',
                       f'Database.{m}: {bad[1] if bad else "no not-found path"}', node=bad[0].node if bad and bad[0].node is not None else fi.node, file=fi.file)
-        fi = idx.func(DB, 'Database.delete_project')
+        fi = F(DB, 'Database.delete_project')
         guard_obligation(ctx, col, 'C09-guard', fi, 'no-project', exact([('none', 'self.project')]), DVE,
                          protect=mutation_pred(ctx, fi), what='self.project is None')
         # Table.add_index: foreign column
-        fi = idx.func('pydbml._classes.table', 'Table.add_index')
+        fi = F('pydbml._classes.table', 'Table.add_index')
         o = first_param(fi)
 
         def foreign(lits, n):
@@ -609,7 +663,7 @@ def run(ctx, col: Collector):
                          require_loop_over=f'{o}.subjects')
         # Table.delete_column / delete_index: absent object
         for m, container, exc in (('delete_column', 'self.columns', 'ColumnNotFoundError'), ('delete_index', 'self.indexes', 'IndexNotFoundError')):
-            fi = idx.func('pydbml._classes.table', f'Table.{m}')
+            fi = F('pydbml._classes.table', f'Table.{m}')
             o = first_param(fi)
             guard_obligation(ctx, col, 'C09-guard', fi, 'absent', exact([('not', ('in', o, container))], [('isinstance', o, m.split('_')[1].capitalize())]),
                              [EXC + exc], protect=None, what=f'{o} not in {container}', when=False)
